@@ -148,6 +148,14 @@ LowestLevelInsideGroupK(Ek, th, kr, g, fder) ==
    \E gp \in {Borders(Ek, th, kr)[j] : j \in 1..Len(Borders(Ek, th, kr))} :
        Ek[gp[1] + 1] * g.Q < EFminN(g, fder) /\ EFminN(g, fder) <= Ek[gp[2]] * g.Q
 
+(* a group of several bands reaches up to the lowest level of the (extended) grid (top band >= level) while its mean energy is
+   at least one and a half Fermi steps below that level (needs a threshold of several steps): the bin index of the code's
+   representative energy would be negative; the group must still be counted at every level above its top band *)
+GroupMeanFarBelowLowestLevelK(Ek, th, kr, g, fder) ==
+   \E gp \in {Borders(Ek, th, kr)[j] : j \in 1..Len(Borders(Ek, th, kr))} :
+       /\ GroupSize(gp) > 1 /\ Ek[gp[2]] * g.Q >= EFminN(g, fder)
+       /\ 2 * GroupSum(Ek, gp) * g.Q <= GroupSize(gp) * (2 * EFminN(g, fder) - 3 * g.d)
+
 RSumK(rows, i, nk) == LET T[k \in 0..nk] == IF k = 0 THEN RZero ELSE RAdd(T[k - 1], rows[k][i]) IN T[nk]
 
 (* a stencil is the n-th central difference iff it is exact on polynomials of degree <= n+1 : applied to x^k on the integer
